@@ -78,26 +78,27 @@ FlatDirect(code) == FlatList(Direct, code, <<>>, 1)
 \* ---- WHILE / WEND pairing by source position
 RECURSIVE PairUp(_, _, _, _, _)
 \* flat, index, stack of indices of open WHILEs, map so far (set of pairs), errors so far
+\* (an error is [code, idx]: idx = index in flat of the unmatched WHILE / WEND)
 PairUp(flat, i, stack, pairs, errs) ==
   IF i > Len(flat)
   THEN [pairs |-> pairs,
-        errs |-> errs \o [j \in 1..Len(stack) |->
-                            [code |-> EWhileNoWend, ln |-> flat[stack[Len(stack) + 1 - j]].p.ln]]]
+        errs |-> errs \o [j \in 1..Len(stack) |-> [code |-> EWhileNoWend, idx |-> stack[Len(stack) + 1 - j]]]]
   ELSE LET s == flat[i].s IN
        IF s.k = "while" THEN PairUp(flat, i + 1, Append(stack, i), pairs, errs)
        ELSE IF s.k = "wend" THEN
          IF stack = <<>>
-         THEN PairUp(flat, i + 1, stack, pairs, Append(errs, [code |-> EWendNoWhile, ln |-> flat[i].p.ln]))
+         THEN PairUp(flat, i + 1, stack, pairs, Append(errs, [code |-> EWendNoWhile, idx |-> i]))
          ELSE LET w == stack[Len(stack)] IN
               PairUp(flat, i + 1, SubSeq(stack, 1, Len(stack) - 1),
                      pairs \cup {<<flat[w].p, flat[i].p>>, <<flat[i].p, flat[w].p>>}, errs)
        ELSE PairUp(flat, i + 1, stack, pairs, errs)
 
-\* ---- references to line numbers
-Refs(s) == CASE s.k \in {"goto", "gosub"} -> {s.n}
-             [] s.k \in {"ongoto", "ongosub"} -> {s.ns[j] : j \in 1..Len(s.ns)}
-             [] s.k \in {"restore", "run"} -> IF s.n >= 0 THEN {s.n} ELSE {}
-             [] OTHER -> {}
+\* ---- references to line numbers (in source order)
+RefSeq(s) == CASE s.k \in {"goto", "gosub"} -> <<s.n>>
+               [] s.k \in {"ongoto", "ongosub"} -> s.ns
+               [] s.k \in {"restore", "run"} -> IF s.n >= 0 THEN <<s.n>> ELSE <<>>
+               [] OTHER -> <<>>
+Refs(s) == {RefSeq(s)[j] : j \in 1..Len(RefSeq(s))}
 
 \* ---- DATA in source order
 RECURSIVE DataOfFlat(_, _)
@@ -109,19 +110,40 @@ CountData(flat, i, ln) ==
   IF i > Len(flat) \/ flat[i].p.ln >= ln THEN 0
   ELSE (IF flat[i].s.k = "data" THEN Len(flat[i].s.vals) ELSE 0) + CountData(flat, i + 1, ln)
 
+\* ---- where a diagnostic points: a character range of the listed text of its line (C19)
+\* the indices of the segments of a line that are line-number references / WHILE-WEND keywords
+SelIdx(segs, P(_)) == LET I == {i \in 1..Len(segs) : P(segs[i])} IN
+                      [j \in 1..Cardinality(I) |-> CHOOSE i \in I : Cardinality({x \in I : x < i}) = j - 1]
+\* the j-th reference of line ln (in source order) and the j-th reference segment of its text
+RECURSIVE RefsOfLine(_, _, _)
+RefsOfLine(flat, i, ln) == IF i > Len(flat) THEN <<>>
+                           ELSE (IF flat[i].p.ln = ln THEN RefSeq(flat[i].s) ELSE <<>>) \o RefsOfLine(flat, i + 1, ln)
+\* rank of flat[i] among the WHILE / WEND statements of its own line
+WRank(flat, i) == Cardinality({x \in 1..i : flat[x].p.ln = flat[i].p.ln /\ flat[x].s.k \in {"while", "wend"}})
+
 \* ---- the static analysis of a compile unit
 \* A line that does not parse is represented by the single statement [k |-> "bad", code].
 \* When any line fails to parse only those errors are reported (the later phases are not
 \* reached); otherwise unmatched WHILE/WEND and references to missing lines.
-Analyze(flat, lines) ==
+\* src: line number -> statements as entered (for the columns); c0 = -1: range not specified.
+Analyze(flat, lines, src) ==
   LET bad  == SelectSeq(flat, LAMBDA x : x.s.k = "bad")
       pr   == PairUp(flat, 1, <<>>, {}, <<>>)
-      refErrs == UNION {{[code |-> EUndefLine, ln |-> flat[i].p.ln, n |-> n] :
-                           n \in Refs(flat[i].s) \ lines} : i \in 1..Len(flat)}
+      lns  == {flat[i].p.ln : i \in 1..Len(flat)}
+      segsOf == [ln \in lns |-> SegLine(ln, src[ln])]
+      refErrs == UNION {
+         LET segs == segsOf[ln]
+             rs == RefsOfLine(flat, 1, ln)
+             ix == SelIdx(segs, LAMBDA g : g.r >= 0)
+         IN  {[code |-> EUndefLine, ln |-> ln, c0 |-> SegRange(segs, ix[j])[1], c1 |-> SegRange(segs, ix[j])[2]] :
+                 j \in {j \in 1..Len(rs) : rs[j] \notin lines}} : ln \in lns}
+      wErrs == {LET e == pr.errs[j]  ln == flat[e.idx].p.ln  segs == segsOf[ln]
+                    ix == SelIdx(segs, LAMBDA g : g.w # "")
+                    rg == SegRange(segs, ix[WRank(flat, e.idx)])
+                IN [code |-> e.code, ln |-> ln, c0 |-> rg[1], c1 |-> rg[2]] : j \in 1..Len(pr.errs)}
   IN  [pairs |-> pr.pairs,
-       perr  |-> IF bad # <<>> THEN {[code |-> bad[j].s.code, ln |-> bad[j].p.ln] : j \in 1..Len(bad)}
-                 ELSE {[code |-> pr.errs[j].code, ln |-> pr.errs[j].ln] : j \in 1..Len(pr.errs)}
-                      \cup {[code |-> e.code, ln |-> e.ln] : e \in refErrs},
+       perr  |-> IF bad # <<>> THEN {[code |-> bad[j].s.code, ln |-> bad[j].p.ln, c0 |-> -1, c1 |-> -1] : j \in 1..Len(bad)}
+                 ELSE wErrs \cup refErrs,
        data  |-> DataOfFlat(flat, 1),
        hasdata |-> \E i \in 1..Len(flat) : flat[i].s.k = "data"]
 
